@@ -27,19 +27,33 @@ pub struct AdapterError {}
 pub struct PrivKey {}
 pub struct Instant {}
 impl Instant { #[verifier::external_body] pub fn now() -> Instant { unimplemented!() } }
-/// tokio::time::Interval: only its configuration is modelled
-pub struct Interval { pub period: Duration, pub behavior: tokio::time::MissedTickBehavior }
+/// tokio::time::Interval: its configuration and a ghost *phase* (which changes whenever the schedule of future ticks is
+/// moved by `reset*`); waiting for a tick changes neither
+pub struct Interval { pub period: Duration, pub behavior: tokio::time::MissedTickBehavior, pub phase: Ghost<int> }
 impl Interval {
     /// completes when the next keep-alive period has elapsed (wall-clock: not modelled)
-    #[verifier::external_body] pub fn tick(&mut self) -> Instant { unimplemented!() }
+    #[verifier::external_body] pub fn tick(&mut self) -> Instant
+        ensures *final(self) == *old(self)
+    { unimplemented!() }
     pub fn set_missed_tick_behavior(&mut self, behavior: tokio::time::MissedTickBehavior)
-        ensures final(self).behavior == behavior, final(self).period == old(self).period
+        ensures final(self).behavior == behavior, final(self).period == old(self).period, final(self).phase == old(self).phase
     { self.behavior = behavior; }
+    /// `reset`, `reset_immediately`, `reset_after`, `reset_at`: the next tick is rescheduled
+    #[verifier::external_body] pub fn reset(&mut self)
+        ensures final(self).period == old(self).period, final(self).behavior == old(self).behavior, final(self).phase@ == old(self).phase@ + 1
+    { unimplemented!() }
+    #[verifier::external_body] pub fn reset_immediately(&mut self)
+        ensures final(self).period == old(self).period, final(self).behavior == old(self).behavior, final(self).phase@ == old(self).phase@ + 1
+    { unimplemented!() }
+    #[verifier::external_body] pub fn reset_after(&mut self, after: Duration)
+        ensures final(self).period == old(self).period, final(self).behavior == old(self).behavior, final(self).phase@ == old(self).phase@ + 1
+    { unimplemented!() }
+    pub fn period(&self) -> (r: Duration) ensures r == self.period { self.period }
 }
 #[derive(Clone, Copy, PartialEq, Eq, Structural)]
 pub enum MissedTickBehavior { Burst, Delay, Skip }
 pub fn vx_interval(period: Duration) -> (r: Interval) ensures r.period == period, r.behavior == MissedTickBehavior::Burst
-{ Interval { period, behavior: MissedTickBehavior::Burst } }
+{ Interval { period, behavior: MissedTickBehavior::Burst, phase: Ghost(0) } }
 pub mod tokio {
     pub mod time {
         pub use super::super::MissedTickBehavior;
